@@ -3,6 +3,8 @@ CONSTANTS
   Ts = {2}
   NCalls = 3
   NWakers = 2
+  CompleteTh = {0, 2}
+  FailTh = {1}
   LateSlack = 0
   WithPollPending = FALSE
   TimeoutAfterErrorOnly = FALSE
